@@ -1,11 +1,132 @@
-import TapkeeVerif.Model.Connected
-/-! Property C03 — theorems (work in progress; see Proofs/Connected*.lean). -/
-namespace TapkeeVerif.Connected
+import TapkeeVerif.Proofs.ConnectedPerm
+import TapkeeVerif.Model.Knn
+/-!
+# Property C03 — check_connectivity guarantees a graph on which all geodesics are finite
 
-/-- regression witness of F-CONN-DIR (fixed in 821c976): the 2-out-regular graph "outlier first", which the
-    old reach-from-0 test accepted although it is not strongly connected, is rejected. -/
-theorem isConnected_rejects_outlier_first :
-    isConnected 4 [[1, 2], [2, 3], [1, 3], [1, 2]] = .ok false ∧
-      stronglyConnected [[1, 2], [2, 3], [1, 3], [1, 2]] 4 = false := by decide
+Subjects: the models of `include/tapkee/neighbors/connected.hpp` (`is_connected`, as of the fix F-CONN-DIR
+821c976: depth-first search from sample 0 along the edges and along the reversed edges) and of the recursion of
+`neighbors.hpp::find_neighbors` in `Model/Connected.lean`.  `N`, `k`, the graphs and the search are
+universally quantified; the search is *any* function from k to neighbour lists (C02 is its specification).
+
+`StronglyConnected g N` : every sample `u < N` reaches every sample `v < N` along the edges the code follows
+(`w ∈ (g[u]).take (g[0].size())`), i.e. in the direction in which the Dijkstra of `routines/isomap.hpp`
+relaxes edges — exactly the condition under which every shortest-path distance is finite.
+-/
+namespace TapkeeVerif.Connected
+open TapkeeVerif.Knn
+
+/-- **`isConnected_iff`** : whenever the lists can be read in bounds, `is_connected` answers (the loops
+    terminate: `dfs_fuel_suffices` is part of the proof) and the answer is strong connectivity of the
+    followed edges. -/
+theorem isConnected_iff {N : Nat} {g : Graph} (hN : 0 < N) (hoob : isConnected N g ≠ .oob) :
+    ∃ b, isConnected N g = .ok b ∧ (b = true ↔ StronglyConnected g N) :=
+  isConnected_spec hN hoob
+
+/-- the depth-first search alone decides reachability of every vertex from vertex 0 (and always answers) -/
+theorem reachesAll_iff_reach {N : Nat} {h : Graph} (hwf : WFG N h) (hN : 0 < N) :
+    ∃ b, reachesAll N h = .ok b ∧ (b = true ↔ ∀ v, v < N → Reach h 0 v) :=
+  reachesAll_iff hwf hN
+
+/-- **`C03_geodesics_finite`** : a graph returned by `find_neighbors(.., check_connectivity = true)` lets every
+    sample reach every other sample along the followed edges — for any search whatsoever. -/
+theorem C03_geodesics_finite (search : Nat → Graph) {N : Nat} (hN : 0 < N) (fuel k : Nat) (f : Found)
+    (h : findNeighbors search N true fuel k [] = .ok f) : StronglyConnected f.graph N := by
+  obtain ⟨_, _, _, h3, _, _⟩ := findNeighbors_spec search N fuel k [] f h
+  exact isConnected_true_iff hN h3
+
+/-- **`k_raised_only_if_needed`** : the final k is `min (k₀·2^j) (N-1)` for the *least* `j` whose graph is
+    strongly connected; every smaller level was searched and its graph lacked that reachability. -/
+theorem k_raised_only_if_needed (search : Nat → Graph) {N : Nat} (hN : 0 < N) (fuel k0 : Nat) (f : Found)
+    (h : findNeighbors search N true fuel k0 [] = .ok f) :
+    ∃ j, f.k = min (k0 * 2 ^ j) (N - 1) ∧ f.graph = search f.k ∧ StronglyConnected f.graph N ∧
+      (∀ j', j' < j → ¬ StronglyConnected (search (min (k0 * 2 ^ j') (N - 1))) N) ∧
+      f.tried = (List.range (j + 1)).map fun j' => min (k0 * 2 ^ j') (N - 1) := by
+  obtain ⟨j, h1, h2, h3, h4, h5⟩ := findNeighbors_spec search N fuel k0 [] f h
+  refine ⟨j, by rw [h1, kseq_closed], by rw [h2, h1], isConnected_true_iff hN h3, ?_, ?_⟩
+  · intro j' hj' hsc
+    have hf := h4 j' hj'
+    obtain ⟨b, hb, hiff⟩ := isConnected_spec hN (g := search (kseq N k0 j')) (by rw [hf]; simp)
+    rw [hf] at hb
+    cases hb
+    rw [kseq_closed] at hiff
+    exact absurd (hiff.2 hsc) (by simp)
+  · rw [h5, List.nil_append]
+    apply List.map_congr_left
+    intro a _
+    exact kseq_closed N k0 a
+
+/-- without the check the first search is returned as it is (k only clamped to N-1) -/
+theorem findNeighbors_unchecked (search : Nat → Graph) (N fuel k : Nat) :
+    findNeighbors search N false (fuel + 1) k [] = .ok ⟨search (min k (N - 1)), min k (N - 1), [min k (N - 1)]⟩ := by
+  rw [findNeighbors_unfold]
+  simp [clamp_eq_min]
+
+/-- **`findNeighbors_terminates`** : for every requested `k ≥ 1` and every search whose lists are exact k-NN
+    lists (C02: `k` distinct other samples, here only that much of `IsExactKnn` is used), the recursion ends
+    with a result within the fuel the model passes; in particular it never hangs and never reads out of bounds. -/
+theorem findNeighbors_terminates {K : Type} [LE K] [DecidableLE K] (δ : Nat → Nat → K) (search : Nat → Graph)
+    {N : Nat} (hN : 0 < N) {k0 : Nat} (hk : 1 ≤ k0)
+    (hlen : ∀ k, (search k).length = N)
+    (hexact : ∀ k, k ≤ N - 1 → ∀ u (hu : u < (search k).length),
+      IsExactKnn δ (List.range N) k u (search k)[u]) :
+    ∃ f, findNeighbors search N true (findFuel N) k0 [] = .ok f := by
+  have huni : ∀ k, k ≤ N - 1 → Uniform (search k) N k := by
+    intro k hk'
+    refine ⟨hlen k, ?_⟩
+    intro l hl
+    obtain ⟨u, hu, rfl⟩ := List.getElem_of_mem hl
+    obtain ⟨h1, _, _, h4, _⟩ := hexact k hk' u hu
+    exact ⟨h1, fun w hw => List.mem_range.1 (h4 w hw)⟩
+  apply findNeighbors_total search N hN (fun k hk' => (huni k hk').not_oob hN)
+  · apply complete_connected hN (hlen _)
+    intro u hu
+    obtain ⟨h1, h2, h3, h4, _⟩ := hexact (N - 1) (Nat.le_refl _) u hu
+    exact ⟨h1, h2, h3, fun w hw => List.mem_range.1 (h4 w hw)⟩
+  · exact ⟨N - 1, by unfold findFuel; omega, kseq_reaches N k0 hk⟩
+
+/-- **`decision_order_independent`** : for inverse permutations `π` (new ↦ old index), `inv` (old ↦ new) of the
+    sample order, the verdict of `is_connected` on the relabelled graph (the graph the same data produce when
+    supplied in the order `π`) is the verdict on the original graph. -/
+theorem decision_order_independent {g : Graph} {N k : Nat} {π inv : List Nat} (hu : Uniform g N k)
+    (hp : IsPermPair π inv N) (hN : 0 < N) :
+    isConnected N (relabel g π inv) = isConnected N g :=
+  isConnected_relabel hu hp hN
+
+/-- strong connectivity itself is invariant under relabelling -/
+theorem stronglyConnected_order_independent {g : Graph} {N k : Nat} {π inv : List Nat} (hu : Uniform g N k)
+    (hp : IsPermPair π inv N) (hN : 0 < N) :
+    StronglyConnected (relabel g π inv) N ↔ StronglyConnected g N :=
+  stronglyConnected_relabel hu hp hN
+
+/-! ### why the repair F-CONN-DIR was needed (Lean-checked witnesses about the *old* test = forward search only) -/
+
+/-- outlier first (`0 → 1 ⇄ 2`): the forward search from sample 0 alone reaches everything, although sample 0
+    is unreachable — and after moving the outlier to the end (`π = [1,2,0]`) the same test says "no":
+    reach-from-0 is neither sufficient for finite geodesics nor order independent.  The repaired test rejects
+    the graph in both orders. -/
+theorem reach_from_first_alone_refuted :
+    reachesAll 3 [[1], [2], [1]] = .ok true ∧ stronglyConnected [[1], [2], [1]] 3 = false ∧
+      reachesAll 3 (relabel [[1], [2], [1]] [1, 2, 0] [2, 0, 1]) = .ok false ∧
+      isConnected 3 [[1], [2], [1]] = .ok false ∧
+      isConnected 3 (relabel [[1], [2], [1]] [1, 2, 0] [2, 0, 1]) = .ok false := by decide
+
+/-! ### non-vacuity -/
+
+example : Uniform [[1, 2], [2, 0], [0, 1]] 3 2 := by
+  refine ⟨rfl, ?_⟩
+  decide
+
+example : IsPermPair [1, 2, 0] [2, 0, 1] 3 := by
+  refine ⟨rfl, rfl, ?_, ?_⟩ <;> decide
+
+example : isConnected 3 [[1, 2], [2, 0], [0, 1]] = .ok true := by decide
+
+example : WFG 3 [[1], [2], [1]] := by
+  refine ⟨rfl, ?_⟩
+  decide
+
+/-- a search that needs one doubling: two pairs that only see each other at k = 1 -/
+example : findNeighbors (fun k => if k = 1 then [[1], [0], [3], [2]] else [[1, 2, 3], [0, 2, 3], [3, 0, 1], [2, 0, 1]])
+    4 true (findFuel 4) 1 [] = .ok ⟨[[1, 2, 3], [0, 2, 3], [3, 0, 1], [2, 0, 1]], 2, [1, 2]⟩ := by decide
 
 end TapkeeVerif.Connected
